@@ -85,13 +85,26 @@ func TestVerifC17(t *testing.T) {
 		}
 		r.Set("file_sizes", fmt.Sprint(sizes))
 		eofWithData := tp.Choose(3) == 0
+		// some files fail with a read error somewhere in the middle; the saver goes on with the next file
+		failAt := make([]int, nFiles)
+		if tp.Choose(3) == 0 {
+			for i := range failAt {
+				if sizes[i] > 1 && tp.Choose(2) == 0 {
+					failAt[i] = []int{1, sizes[i] / 2, sizes[i] - 1, chunkReadBufSize, chunkReadBufSize + 4711}[tp.Choose(5)]
+					if failAt[i] >= sizes[i] || failAt[i] < 1 {
+						failAt[i] = sizes[i] / 2
+					}
+				}
+			}
+		}
+		r.Set("read_error_at", fmt.Sprint(failAt))
 		r.Set("max_short_read", short)
 		r.Set("eof_with_data", eofWithData)
-		r.CaseKey = fmt.Sprint(sizes, short, pol, eofWithData)
+		r.CaseKey = fmt.Sprint(sizes, short, pol, eofWithData, failAt)
 		simrt.Run(r.T, s, 120*time.Second, func() {
 			root := &simfs.Node{Name: "src", Mode: 0o755 | (1 << 31)}
 			for i, c := range contents {
-				root.Add(&simfs.Node{Name: fmt.Sprintf("f%d", i), Mode: 0o644, Data: c, Inode: uint64(10 + i), Links: 1})
+				root.Add(&simfs.Node{Name: fmt.Sprintf("f%d", i), Mode: 0o644, Data: c, Inode: uint64(10 + i), Links: 1, FailReadAt: failAt[i]})
 			}
 			sfs := simfs.New(root)
 			sfs.Park = true
@@ -100,6 +113,7 @@ func TestVerifC17(t *testing.T) {
 			sfs.ShortBudget = 300 // then full reads: a megabyte read in single bytes would only repeat the same state
 			saver := &c17Saver{}
 			perFile := make([][][]byte, len(contents))
+			failed := make([]bool, len(contents))
 			var ferr error
 			s.Do("saver", nil, func() {
 				ctx := context.Background()
@@ -120,6 +134,15 @@ func TestVerifC17(t *testing.T) {
 					saver.mu.Unlock()
 					fn := fsv.Save(ctx, "/", fmt.Sprintf("/src/f%d", i), f, func() {}, func() {}, func(*data.Node, ItemStats) {})
 					res := fn.take(ctx)
+					if res.err != nil && failAt[i] > 0 {
+						// the injected read error: this file is skipped, the next one must be unaffected
+						s.Count("fault:file-read-error")
+						failed[i] = true
+						continue
+					}
+					if res.err == nil && failAt[i] > 0 {
+						r.Fail("lossless", "read-error-swallowed", "file %d: reading failed at offset %d but saving it reported success", i, failAt[i])
+					}
 					if res.err != nil {
 						ferr = res.err
 						break
@@ -153,6 +176,9 @@ func TestVerifC17(t *testing.T) {
 				return
 			}
 			for i, c := range contents {
+				if failed[i] {
+					continue
+				}
 				got := perFile[i]
 				var cat []byte
 				for k, ch := range got {
